@@ -282,6 +282,20 @@ func init() {
 				do("qv2ext", join(l), s(outH), s(outV))
 			case 1: // extended IDs -> quadkey/vertical groups
 				l := randExtList(3)
+				if rng.Intn(5) == 0 {
+					// P, then an element inside P (it adds no new pair), then P's column again at another altitude — and shuffles
+					// of the three: what is computed for one element must not leak into the next
+					p0 := l[0]
+					inner := p0
+					if p0.h < 34 && p0.v < 34 {
+						inner = ext{p0.h + 1, p0.x<<1 + int64(rng.Intn(2)), p0.y<<1 + int64(rng.Intn(2)), p0.v + 1, p0.f<<1 + int64(rng.Intn(2))}
+					}
+					other := clampExt(ext{p0.h, p0.x, p0.y, p0.v, p0.f + int64(1-2*rng.Intn(2))})
+					l = []ext{p0, inner, other}
+					if rng.Intn(3) == 0 {
+						rng.Shuffle(len(l), func(i, j int) { l[i], l[j] = l[j], l[i] })
+					}
+				}
 				var idl []string
 				minH, minV := int64(35), int64(35)
 				for _, e := range l {
